@@ -123,6 +123,9 @@ func GenOp(r *simrt.Rand, idx int, seed uint64, proto string) *Op {
 	op.N = int64(r.Uint64()>>40) - 1000
 	op.MetaK = metaKeys[r.Intn(len(metaKeys))]
 	op.MetaV = GenString(r, 1+r.Intn(12), alphaSafe[:62])
+	if r.Chance(0.12) {
+		op.MetaV = "" // a key with an empty value travels as a bare key in the query-string encoding of metadata
+	}
 	// route + codec
 	routeKind := r.Intn(10)
 	switch {
